@@ -502,3 +502,6 @@ def units(prop, tier):
 #   DSA.py _verify: u1/u2 swapped; final `% q` dropped; `0 < s` -> `0 <= s`      exit 1  _verify.ensures.fips186_4_7 (+ raises_only.ValueError)
 #   benign: rename `result` -> `outcome` in verify; `w` -> `winv` in DsaKey._verify; `sinv` -> `s_inv` in EccKey._verify;
 #           extra local in _compute_nonce                                       exit 0
+#   reverting a repair:  DSS.py `assert 0 <= int_mod_q` -> `0 <`                 exit 1  _int2octets.raises_only.AssertionError
+#                        pkcs1_15.py `raise ValueError("DigestInfo ...` -> TypeError   exit 1  _EMSA_PKCS1_V1_5_ENCODE.raises_only.TypeError (sig_rsa)
+#                        PKCS1_v1_5.py `0 <= expected_pt_len <= k - 11` -> `0 <=`  exit 1  decrypt.ensures.length_too_long / length_not_a_size_t (pkcs1_enc)
